@@ -116,6 +116,7 @@ var opInfo = map[string]struct {
 	"Cmp": {2, false, false}, "Sign": {1, false, false}, "IsInt": {1, false, false}, "MinPrec": {1, false, false},
 	"Int": {1, false, false}, "Int64": {1, false, false}, "Uint64": {1, false, false}, "Rat": {1, false, false},
 	"Float": {1, false, false}, "Float32": {1, false, false}, "Float64": {1, false, false},
+	"IntTo": {1, false, false}, "RatTo": {1, false, false}, "FloatTo": {1, false, false},
 	"Text": {1, false, false}, "Append": {1, false, false}, "Format": {1, false, false}, "String": {1, false, false},
 	"GobEncode": {1, false, false}, "MarshalText": {1, false, false}, "MarshalJSON": {1, false, false},
 	"Attrs": {1, false, false},
@@ -315,6 +316,27 @@ func execOp(w *World, op *Op) (res Result) {
 	case "Rat":
 		r, acc := a(0).Rat(nil)
 		res.Ret = fmt.Sprint(r, accS(acc))
+	case "IntTo":
+		if w.BI == nil {
+			w.BI = new(big.Int)
+		}
+		i, acc := a(0).Int(w.BI)
+		res.Ret = fmt.Sprint(i, accS(acc), i == w.BI)
+	case "RatTo":
+		if w.BR == nil {
+			w.BR = new(big.Rat)
+		}
+		r, acc := a(0).Rat(w.BR)
+		res.Ret = fmt.Sprint(r, accS(acc), r == w.BR)
+	case "FloatTo":
+		if w.BF == nil {
+			w.BF = new(big.Float).SetMode(big.RoundingMode(op.M % 6))
+			if op.P > 0 {
+				w.BF.SetPrec(uint(op.P))
+			}
+		}
+		f := a(0).Float(w.BF)
+		res.Ret = fmt.Sprint(f.Text('p', 0), f.Prec(), f.Mode(), baccS(f.Acc()), f == w.BF)
 	case "Float":
 		var f *big.Float
 		if op.P > 0 {
@@ -367,7 +389,7 @@ func typeName(v interface{}) string {
 
 // expCost lists operations whose running time and memory are proportional to
 // the decimal exponent (they materialise every integer digit).
-var expCost = map[string]bool{"Int": true, "Rat": true,
+var expCost = map[string]bool{"Int": true, "Rat": true, "IntTo": true, "RatTo": true,
 	"Text": true, "Append": true, "Format": true, "String": true, "IsInt": true, "MarshalText": true, "MarshalJSON": true,
 	"TextCopy": true, "JSONCopy": true}
 
@@ -422,7 +444,7 @@ func costGuard(w *World, op *Op) string {
 			return "working precision exceeds the simulation's cost limit"
 		}
 	}
-	if name == "Float" && op.P == 0 && len(op.A) > 0 && w.V[op.A[0]].Prec() > maxWorkPrec {
+	if (name == "Float" && op.P == 0 || name == "FloatTo" && (w.BF == nil && op.P == 0 || w.BF != nil && w.BF.Prec() == 0)) && len(op.A) > 0 && w.V[op.A[0]].Prec() > maxWorkPrec {
 		// Float(nil) works at ceil(Prec()*log2(10)) bits
 		return "conversion at the operand's precision, which is above the simulation's cost limit"
 	}
